@@ -48,7 +48,7 @@ func reachLocal(fn *ssa.Function, pred func(*ssa.CallCommon) bool) *reachNode {
 		pkg = fn.Prog.Package(fn.Object().Pkg())
 	}
 	inPkg := func(g *ssa.Function) bool {
-		return g != nil && g.Blocks != nil && (core.PkgOf(g) == pkg || g.Synthetic != "")
+		return g != nil && g.Blocks != nil && (core.PartOf(core.PkgOf(g), pkg) || g.Synthetic != "")
 	}
 	for _, b := range fn.Blocks {
 		for _, in := range b.Instrs {
@@ -253,7 +253,7 @@ func lowestReaching(c *core.Ctx, pkgRel string, preds ...func(*ssa.CallCommon) b
 							g, _ = v.Fn.(*ssa.Function)
 						}
 						g = resolveWrapper(g)
-						if g != nil && g != fn && !reachCut[g] && (core.PkgOf(g) == p || g.Synthetic != "") && core.TopLevel(g) != fn && all(g) {
+						if g != nil && g != fn && !reachCut[g] && (core.PartOf(core.PkgOf(g), p) || g.Synthetic != "") && core.TopLevel(g) != fn && all(g) {
 							lower = true
 						}
 					}
